@@ -60,6 +60,7 @@ const STRS_WIDE: &[&str] = &[
     "", "a", "b", "A", "xml", "space", "id", "xmlns", "é", "urn:a", "urn:b", "n0", "p",
     "http://www.w3.org/XML/1998/namespace", "http://www.w3.org/1999/xhtml", "br", "BR", "a b",
     "\u{1F600}", "XML", "Xml", "xMl", "XMLNS", "Space", "ID", "HTTP://WWW.W3.ORG/XML/1998/NAMESPACE",
+    "{urn:a}b", "{}b", "{", "URN:a", "Urn:B", "DIV", "div", "p:a", "a:b:c",
 ];
 
 const STRS: &[&str] = &[
